@@ -20,7 +20,8 @@ RULE = (
     'runs of heavy / drizzle steps and jump / small increments so that storms '
     'overlap several rises and vice versa) x lattice thresholds (often equal to a '
     'data value), plus a float generator (arbitrary finite doubles for values '
-    'and thresholds from 1e-6 to 500); ~10% of cases run through the command line on a file, the '
+    'and thresholds from 1e-6 to 500) and the file triples of C10 (finer / '
+    'coarser / unaligned water-level sampling, shuffled rows); ~10% of cases run through the command line on a file, the '
     'rest through load_data / classify_intervals on :memory:. Oracle: no '
     'exception (a dataset without any water level must be refused with the '
     'explicit "No valid data intervals" error and left unchanged); no rise '
@@ -34,12 +35,27 @@ ASSUMPTIONS = ['load is correct (C10)']
 
 
 @st.composite
+def loadable_triples(draw):
+    """The file triples of C10 (water level on a finer / coarser / unaligned
+    step, gaps anywhere, shuffled rows) with thresholds: whatever loads must
+    classify."""
+    from vfw.props.C10 import cases as load_cases
+    record = draw(load_cases())
+    record['s'] = draw(st.sampled_from([0.25, 1.0, 4.0, 8.0]))
+    record['j'] = draw(st.one_of(st.sampled_from([0.5, 5.0, 8.0]),
+                                 st.floats(0.01, 40.0)))
+    record['gen'] = 'load-triple-' + record.get('mode', '')
+    record.pop('cli', None)
+    return record
+
+
+@st.composite
 def cases(draw, tier):
     from vfw.props.C02 import contention_records, chain_records
     record = draw(st.one_of(
         gen_records.records(max_steps=30 if tier == 'quick' else 60),
         contention_records(), chain_records(),
-        gen_records.float_records()))
+        gen_records.float_records(), loadable_triples()))
     record['cli'] = draw(st.integers(0, 9)) == 0
     return record
 
